@@ -225,6 +225,8 @@ def run(chk: Check):
     rule_counter(chk, ix)
     rule_newline_neutral(chk, ix)
     rule_n5(chk, ix)
+    from .c13 import rule_u1
+    rule_u1(chk)   # a process-wide cache (of nodes, generators, tokens) is history: what one statement built is handed to the next
     # the line-continuation flag must not leak into the next logical line (C09 K6); flag-setting actions must not be re-run by
     # re-parsing the same position (C18 W1: a fork through unmemoised rules re-executes the actions on cached tokens)
     from .c09 import rule_k4, rule_k6
